@@ -20,3 +20,300 @@ pub fn set_stream_size(size: Option<usize>) {
 pub fn stream_size() -> Option<usize> {
     STREAM_SIZE.with(|s| s.get())
 }
+
+// ---------------------------------------------------------------------------------------
+// Schedulable synchronisation shim.
+//
+// `sync::{Mutex, Condvar}` and `vstd::thread::{Builder, JoinHandle, sleep}` stand in for
+// the std items of the same name in circular_buffer.rs, stream.rs and mtgraph.rs when
+// the `verif` feature is on. Without a scheduler hook installed on the current thread
+// they delegate to std. With one installed, every lock, unlock, timed wait, notify,
+// spawn, join, sleep and stream-end drop is a scheduling point owned by the hook, and
+// timed waits return after a hook-chosen number of yields (a real timed wait may return
+// after any amount of other-thread progress, including none).
+
+/// Kind of scheduling point.
+#[derive(Clone, Copy, Debug, PartialEq, Eq)]
+pub enum Point {
+    Lock,
+    Contended,
+    Unlock,
+    WaitYield,
+    Notify,
+    Sleep,
+    DropEnd,
+    Join,
+}
+
+/// Boxed thread body.
+pub type ThreadBody = Box<dyn FnOnce() + Send + 'static>;
+
+/// Scheduler hook, implemented by the verification harness.
+pub trait SchedHook {
+    /// A scheduling point: the hook may switch to another task here.
+    fn yield_point(&self, p: Point);
+    /// How many times a timed wait yields before it reports a timeout.
+    fn timeout_budget(&self) -> u32;
+    /// Spawn a task running `f`; the returned closure blocks until it has finished.
+    fn spawn(&self, name: Option<String>, f: ThreadBody) -> Box<dyn FnOnce()>;
+}
+
+thread_local! {
+    static HOOK: std::cell::RefCell<Option<std::rc::Rc<dyn SchedHook>>> = const { std::cell::RefCell::new(None) };
+}
+
+/// Install (or remove) the scheduler hook for the current OS thread.
+pub fn set_sched_hook(h: Option<std::rc::Rc<dyn SchedHook>>) {
+    HOOK.with(|x| *x.borrow_mut() = h);
+}
+
+fn hook() -> Option<std::rc::Rc<dyn SchedHook>> {
+    HOOK.with(|x| x.borrow().clone())
+}
+
+/// Scheduling point (no-op without a hook).
+pub fn yield_point(p: Point) {
+    if let Some(h) = hook() {
+        h.yield_point(p);
+    }
+}
+
+pub mod sync {
+    //! Mutex / Condvar with the subset of the std API used by the stream code.
+    use super::{Point, hook};
+
+    /// Error returned when the underlying lock is poisoned.
+    #[derive(Debug)]
+    pub struct Poisoned;
+
+    pub struct Mutex<T>(std::sync::Mutex<T>);
+
+    pub struct MutexGuard<'a, T> {
+        inner: Option<std::sync::MutexGuard<'a, T>>,
+        owner: &'a Mutex<T>,
+    }
+
+    impl<T: std::fmt::Debug> std::fmt::Debug for Mutex<T> {
+        fn fmt(&self, f: &mut std::fmt::Formatter<'_>) -> std::fmt::Result {
+            self.0.fmt(f)
+        }
+    }
+
+    impl<T> Mutex<T> {
+        pub fn new(t: T) -> Self {
+            Self(std::sync::Mutex::new(t))
+        }
+        pub fn lock(&self) -> Result<MutexGuard<'_, T>, Poisoned> {
+            match hook() {
+                None => match self.0.lock() {
+                    Ok(g) => Ok(MutexGuard {
+                        inner: Some(g),
+                        owner: self,
+                    }),
+                    Err(_) => Err(Poisoned),
+                },
+                Some(h) => {
+                    h.yield_point(Point::Lock);
+                    loop {
+                        match self.0.try_lock() {
+                            Ok(g) => {
+                                return Ok(MutexGuard {
+                                    inner: Some(g),
+                                    owner: self,
+                                });
+                            }
+                            Err(std::sync::TryLockError::WouldBlock) => h.yield_point(Point::Contended),
+                            Err(std::sync::TryLockError::Poisoned(_)) => return Err(Poisoned),
+                        }
+                    }
+                }
+            }
+        }
+    }
+
+    impl<T> std::ops::Deref for MutexGuard<'_, T> {
+        type Target = T;
+        fn deref(&self) -> &T {
+            self.inner.as_ref().expect("guard")
+        }
+    }
+    impl<T> std::ops::DerefMut for MutexGuard<'_, T> {
+        fn deref_mut(&mut self) -> &mut T {
+            self.inner.as_mut().expect("guard")
+        }
+    }
+    impl<T> Drop for MutexGuard<'_, T> {
+        fn drop(&mut self) {
+            if self.inner.take().is_some() && !std::thread::panicking() {
+                super::yield_point(Point::Unlock);
+            }
+        }
+    }
+
+    #[derive(Debug, Default)]
+    pub struct Condvar(std::sync::Condvar);
+
+    impl Condvar {
+        pub fn new() -> Self {
+            Self(std::sync::Condvar::new())
+        }
+        pub fn notify_all(&self) {
+            match hook() {
+                None => self.0.notify_all(),
+                Some(h) => h.yield_point(Point::Notify),
+            }
+        }
+        /// Returns the guard and whether the wait timed out.
+        pub fn wait_timeout_while<'a, T, F>(
+            &self,
+            mut guard: MutexGuard<'a, T>,
+            dur: std::time::Duration,
+            mut condition: F,
+        ) -> Result<(MutexGuard<'a, T>, bool), Poisoned>
+        where
+            F: FnMut(&mut T) -> bool,
+        {
+            match hook() {
+                None => {
+                    let owner = guard.owner;
+                    let inner = guard.inner.take().expect("guard");
+                    match self.0.wait_timeout_while(inner, dur, condition) {
+                        Ok((g, t)) => Ok((
+                            MutexGuard {
+                                inner: Some(g),
+                                owner,
+                            },
+                            t.timed_out(),
+                        )),
+                        Err(_) => Err(Poisoned),
+                    }
+                }
+                Some(h) => {
+                    let mut budget = h.timeout_budget();
+                    loop {
+                        if !condition(&mut *guard) {
+                            return Ok((guard, false));
+                        }
+                        if budget == 0 {
+                            return Ok((guard, true));
+                        }
+                        budget -= 1;
+                        let owner = guard.owner;
+                        drop(guard);
+                        h.yield_point(Point::WaitYield);
+                        guard = owner.lock()?;
+                    }
+                }
+            }
+        }
+    }
+}
+
+pub mod vstd {
+    //! Stand-in for `std` in mtgraph.rs: everything is std's, except `thread`.
+    pub use ::std::*;
+
+    pub mod thread {
+        use crate::verif::{Point, hook};
+        use std::sync::{Arc, Mutex};
+
+        pub fn sleep(dur: std::time::Duration) {
+            match hook() {
+                None => std::thread::sleep(dur),
+                Some(h) => h.yield_point(Point::Sleep),
+            }
+        }
+
+        #[derive(Default)]
+        pub struct Builder {
+            name: Option<String>,
+        }
+
+        /// The part of `std::thread::Thread` the runner uses.
+        pub struct Thread {
+            name: Option<String>,
+        }
+        impl Thread {
+            pub fn name(&self) -> Option<&str> {
+                self.name.as_deref()
+            }
+        }
+
+        enum Inner<T> {
+            Std(std::thread::JoinHandle<T>),
+            Hooked {
+                wait: Box<dyn FnOnce()>,
+                slot: Arc<Mutex<Option<T>>>,
+            },
+        }
+
+        pub struct JoinHandle<T> {
+            inner: Inner<T>,
+            thread: Thread,
+        }
+
+        impl Builder {
+            pub fn new() -> Self {
+                Self::default()
+            }
+            pub fn name(mut self, name: String) -> Self {
+                self.name = Some(name);
+                self
+            }
+            pub fn spawn<F, T>(self, f: F) -> std::io::Result<JoinHandle<T>>
+            where
+                F: FnOnce() -> T + Send + 'static,
+                T: Send + 'static,
+            {
+                let thread = Thread {
+                    name: self.name.clone(),
+                };
+                match hook() {
+                    None => {
+                        let mut b = std::thread::Builder::new();
+                        if let Some(n) = self.name {
+                            b = b.name(n);
+                        }
+                        Ok(JoinHandle {
+                            inner: Inner::Std(b.spawn(f)?),
+                            thread,
+                        })
+                    }
+                    Some(h) => {
+                        let slot = Arc::new(Mutex::new(None));
+                        let s2 = slot.clone();
+                        let wait = h.spawn(
+                            self.name,
+                            Box::new(move || {
+                                let v = f();
+                                *s2.lock().unwrap() = Some(v);
+                            }),
+                        );
+                        Ok(JoinHandle {
+                            inner: Inner::Hooked { wait, slot },
+                            thread,
+                        })
+                    }
+                }
+            }
+        }
+
+        impl<T> JoinHandle<T> {
+            pub fn thread(&self) -> &Thread {
+                &self.thread
+            }
+            pub fn join(self) -> std::thread::Result<T> {
+                match self.inner {
+                    Inner::Std(h) => h.join(),
+                    Inner::Hooked { wait, slot } => {
+                        wait();
+                        match slot.lock().unwrap().take() {
+                            Some(v) => Ok(v),
+                            None => Err(Box::new("task ended without a result")),
+                        }
+                    }
+                }
+            }
+        }
+    }
+}
